@@ -65,6 +65,9 @@ Definition op_parse (v : val) : val :=
 (* c08.tokenize : text -> (token ...)        re.findall(pref_pattern, text) *)
 Definition op_tokenize (v : val) : val := elist e_text (tokenize (d_text v)).
 
+(* c08.findall : text -> (token ...)         the declarative reading of the pattern (specification of tokenize) *)
+Definition op_findall (v : val) : val := elist e_text (findall (d_text v)).
+
 (* c08.pref : text -> ballot                  the part of a ballot line after the colon *)
 Definition op_pref (v : val) : val := eresult e_ballot (parse_pref (d_text v)).
 
@@ -74,4 +77,4 @@ Definition op_line (v : val) : val :=
 
 Definition ops : optable :=
   [ ("c08.write", op_write); ("c08.sorted_view", op_sorted_view); ("c08.parse_lines", op_parse_lines);
-    ("c08.parse", op_parse); ("c08.tokenize", op_tokenize); ("c08.pref", op_pref); ("c08.line", op_line) ].
+    ("c08.parse", op_parse); ("c08.tokenize", op_tokenize); ("c08.findall", op_findall); ("c08.pref", op_pref); ("c08.line", op_line) ].
